@@ -618,7 +618,7 @@ class AutoImport:
         if resource.is_folder():
             # every module that was inside the folder
             modname = self._resource_to_module(resource).modname
-            self._execute(models.Name.delete_by_module_name_prefix, (modname, modname))
+            self._execute(models.Name.delete_by_module_name_prefix, (modname, modname, modname))
             self.connection.commit()
         elif self._is_project_module(resource):
             modname = self._resource_to_module(resource).modname
